@@ -131,12 +131,21 @@ Fixpoint goto_bfs (syms : list nat) (nodes : list tnode) (fuel : nat) (queue : l
     end
   end.
 
-(* lines 2018-2023: the absorbing end state *)
+(* transitions[k] = v on a dict: replace the value of an existing key, otherwise a new key at the end *)
+Fixpoint dict_set {B} (k : nat) (v : B) (l : list (nat * B)) : list (nat * B) :=
+  match l with
+  | [] => [(k, v)]
+  | (k', v') :: r => if Nat.eqb k k' then (k, v) :: r else (k', v') :: dict_set k v r
+  end.
+
+(* lines 2018-2023: the absorbing end state: end_state = len(transitions); transitions[end_state] = ...;
+   for state in final_states: transitions[state] = ...; final_states.add(end_state) *)
 Definition add_end (syms : list nat) (rows : list (nat * list (nat * nat))) (finals : list nat)
   : list (nat * list (nat * nat)) * list nat :=
   let e := length rows in
   let erow := map (fun a => (a, e)) syms in
-  (map (fun r => if memb (fst r) finals then (fst r, erow) else r) rows ++ [(e, erow)], finals ++ [e]).
+  (fold_left (fun rs q => dict_set q erow rs) finals (dict_set e erow rows),
+   if memb e finals then finals else finals ++ [e]).
 
 Definition ac_dfa (syms : list nat) (pats : list word) (contains ms : bool) : res dfa :=
   if existsb (fun p => match p with [] => true | _ :: _ => false end) pats             (* if "" in substrings *)
